@@ -97,6 +97,48 @@ class DESim(DS.DimwiseSim):
         return self.snaps
 
 
+def run_standard(c, rk, reuse, threshold):
+    """density estimation on uniform component grids: one StandardCombi object answering a history of perform_operation calls
+    with changing levels (the 'refinement history' of the non-adaptive driver); same snapshot format as DESim.run"""
+    from sparseSpACE.GridOperation import DensityEstimation
+    from sparseSpACE.StandardCombi import StandardCombi
+    from sparseSpACE.Grid import TrapezoidalGrid
+    dim = c["dim"]
+    a, b = np.zeros(dim), np.ones(dim)
+    X = make_data(c["data_seed"], c["n"], dim, c["lines"], c["on_boundary"] and c["boundary"])
+    if not c.get("pre_scaled", True):
+        X = X * 3.0 - 1.0
+    classes = np.array([1.0 if H(rk, "cls", i) < 0.5 else -1.0 for i in range(len(X))]) if c["classes"] else None
+    env_old = {k: os.environ.get(k) for k in ("SPARSESPACE_VERIF", "SPARSESPACE_VERIF_DE_THRESHOLD")}
+    snaps = []
+    try:
+        if threshold is not None:
+            os.environ["SPARSESPACE_VERIF"] = "1"
+            os.environ["SPARSESPACE_VERIF_DE_THRESHOLD"] = str(threshold)
+        else:
+            os.environ.pop("SPARSESPACE_VERIF", None)
+            os.environ.pop("SPARSESPACE_VERIF_DE_THRESHOLD", None)
+        seams.seed_global_prngs(rk)
+        op = DensityEstimation(X, dim, grid=TrapezoidalGrid(a=a, b=b, boundary=c["boundary"]), masslumping=c["masslumping"], lambd=c["lambd"], classes=classes,
+                               reuse_old_values=reuse, numeric_calculation=False, print_output=False, pre_scaled_data=c.get("pre_scaled", True),
+                               print_level=100, log_level=100)
+        sc = StandardCombi(a, b, operation=op, print_level=100, log_level=100)
+        P = [tuple(0.02 + 0.96 * H(rk, "dp", k, d) for d in range(dim)) for k in range(6)]
+        for lmin, lmax in c["calls"]:
+            sc.perform_operation(lmin, lmax)
+            su = {k: np.array(v, dtype=float).copy() for k, v in op.surpluses.items()}
+            sch = sorted((tuple(int(x) for x in cg.levelvector), float(cg.coefficient)) for cg in sc.scheme)
+            vals = np.asarray(sc(P), dtype=float).copy()
+            snaps.append((sch, su, vals, max((len(v) for v in su.values()), default=0)))
+    finally:
+        for k, v in env_old.items():
+            if v is None:
+                os.environ.pop(k, None)
+            else:
+                os.environ[k] = v
+    return snaps
+
+
 class C17(Check):
     pid = "C17"
     runs = {"quick": 700, "thorough": 8000}
@@ -105,7 +147,7 @@ class C17(Check):
     run_timeout_s = 400.0
     min_runs = 10
     real = ["GridOperation.DensityEstimation (R matrix entries analytic / numeric, right-hand side in three code paths, caches old_R / old_B / old_grid_coord / data bins, interpolation in its small-grid and large-grid implementations)",
-            "SpatiallyAdaptiveSingleDimensions2", "refinement containers", "CombiScheme"]
+            "SpatiallyAdaptiveSingleDimensions2", "refinement containers", "CombiScheme", "StandardCombi with DensityEstimation on uniform grids (a fifth of the runs)"]
     stub = ["error-estimator answers (keyed draws, identical for all twins)", "clocks", "synthetic seeded data (clusters, samples on grid lines / on the boundary)",
             "size threshold moved through the guarded hook SPARSESPACE_VERIF_DE_THRESHOLD (the only hook in /repo)"]
     rule = ("schedule = data set (10-80 samples, 2-3 dims, on grid lines / boundary, optional class labels), lambda, mass lumping, analytic "
@@ -115,10 +157,11 @@ class C17(Check):
             "side reuse path on the explored grids). After every evaluation scheme, surpluses per component grid and interpolated densities at "
             "seeded points are compared. A state is the refined structure with the data/option class; distinct_nontrivial counts distinct "
             "refined structures on which the twins were compared")
-    expected_probes = ["twin_compared", "grid_ge_default_threshold", "rebalancing", "new_lmax"]
+    expected_probes = ["twin_compared", "grid_ge_default_threshold", "rebalancing", "new_lmax", "standard_combi_history"]
     assumptions = ["analytic runs are compared with a bound of 1e-8 relative to the largest surplus (the linear solves amplify rounding), numeric-entry runs with 2e-2 (calibrated: nquad on the kinked hat products is accurate to about 2e-3)",
                    "all twins receive identical environment answers and the same global PRNG stream"]
-    excluded_configs = ["numeric matrix entries in 3-D or beyond 30 grid points (scipy.nquad per entry: minutes per run)"]
+    excluded_configs = ["numeric matrix entries in 3-D or beyond 30 grid points (scipy.nquad per entry: minutes per run)",
+                        "StandardCombi density estimation with boundary points (asserted unsupported by evaluate_levelvec)"]
 
     def setup(self):
         import sparseSpACE.spatiallyAdaptiveSingleDimension2, sparseSpACE.GridOperation  # noqa
@@ -139,6 +182,16 @@ class C17(Check):
                "big": (not numeric) and r.random() < (0.03 if tier == "quick" else 0.1), "pre_scaled": r.random() < 0.7}
         if cfg["big"]:       # reach component grids beyond the default threshold of 200 points without the hook
             cfg.update(dim=2, lmax=5, evals=2, masslumping=True, n=40)
+        s2 = stream(rk, "standard")
+        if not numeric and not cfg["big"] and s2.random() < 0.2:
+            # uniform component grids under the non-adaptive driver: one object, several perform_operation calls with changing levels
+            # (its own small-grid implementations: symmetric completely vectorised hats for interpolation, calculate_B)
+            top = 4 if dim == 2 else 3
+            calls = []
+            for _ in range(s2.randint(1, 3)):
+                lmin = s2.choice([1, 1, 2])
+                calls.append([lmin, min(top, lmin + s2.choice([0, 1, 1, 2]))])
+            cfg.update(standard=True, calls=calls, boundary=False)      # the non-adaptive density estimation asserts boundary points off
         return {"config": cfg, "ops": []}
 
     def simplify(self, s):
@@ -185,11 +238,18 @@ class C17(Check):
         tol = 2e-2 if c["numeric"] else 1e-8
 
         def run(reuse, threshold):
+            if c.get("standard"):
+                ctx.step(len(c["calls"]))
+                return None, run_standard(c, rk, reuse, threshold)
             sim = DESim(c, rk, ctx, reuse, threshold).build()
             snaps = sim.run()
             return sim, snaps
+        if c.get("standard"):
+            sig["driver"] = "standard"
+            ctx.exc_sig = dict(sig)
+            ctx.probe("standard_combi_history")
         s0, A = run(False, None)
-        ctx.state(s0.structure_key())
+        ctx.state(s0.structure_key() if s0 is not None else ("standard", c["dim"], c["boundary"], c["calls"]))
         if any(sn[3] >= 200 for sn in A):
             ctx.probe("grid_ge_default_threshold")
         _, B = run(True, None)
